@@ -338,6 +338,15 @@ std::string handle_inner(std::vector<std::string> const &t)
     construct_nulls();
     return op == "end" ? r : "reset";
   }
+  if (op == "dump" && t.size() == 1)
+  {
+    std::string r;
+    for (std::size_t i = 0; i < NV; ++i)
+      r += show_vec(i) + " ";
+    for (std::size_t i = 0; i < NB; ++i)
+      r += show_buf(i) + " ";
+    return r + "live=" + std::to_string(ledger().live.size()) + " alloc=" + (ledger().bad ? "BAD" : "ok");
+  }
   if (op == "readchars" && t.size() == 3)
   {
     std::size_t const count = static_cast<std::size_t>(vh::to_ull(t[1]));
@@ -360,11 +369,17 @@ std::string handle_inner(std::vector<std::string> const &t)
   {
     if (!reg(t[1], NV, r))
       return "bad-op";
-    std::string const &k = t[2];
+    // a leading `a` selects the overload that takes the allocator explicitly
+    bool const with_alloc = t[2].size() > 1 && t[2][0] == 'a';
+    std::string const k = with_alloc ? t[2].substr(1) : t[2];
+    talloc<int> const al{};
     if (k == "default" && t.size() == 3)
     {
       st().vec[r].reset();
-      st().vec[r].emplace();
+      if (with_alloc)
+        st().vec[r].emplace(al);
+      else
+        st().vec[r].emplace();
       st().ref[r] = ref_t{};
     }
     else if (k == "count" && t.size() == 5)
@@ -372,15 +387,37 @@ std::string handle_inner(std::vector<std::string> const &t)
       std::size_t const n = static_cast<std::size_t>(vh::to_ull(t[3]));
       int const x = static_cast<int>(vh::to_ll(t[4]));
       st().vec[r].reset();
-      st().vec[r].emplace(n, x);
+      if (with_alloc)
+        st().vec[r].emplace(n, x, al);
+      else
+        st().vec[r].emplace(n, x);
       st().ref[r] = ref_t(n, x);
     }
     else if (k == "range" && t.size() == 5 && range_kind(t[3]))
     {
       std::vector<int> const xs = ints(t[4]);
       st().vec[r].reset();
-      with_range(t[3], xs, [&](auto const b, auto const e) { st().vec[r].emplace(b, e); });
+      with_range(t[3], xs, [&](auto const b, auto const e) {
+        if (with_alloc)
+          st().vec[r].emplace(b, e, al);
+        else
+          st().vec[r].emplace(b, e);
+      });
       with_range(t[3], xs, [&](auto const b, auto const e) { st().ref[r] = ref_t(b, e); });
+    }
+    else if (k == "il" && t.size() == 4 && with_alloc)
+    {
+      std::vector<int> const xs = ints(t[3]);
+      st().vec[r].reset();
+      switch (xs.size())
+      {
+      case 0: st().vec[r].emplace(std::initializer_list<int>{}, al); break;
+      case 1: st().vec[r].emplace(std::initializer_list<int>{xs[0]}, al); break;
+      case 2: st().vec[r].emplace(std::initializer_list<int>{xs[0], xs[1]}, al); break;
+      case 3: st().vec[r].emplace(std::initializer_list<int>{xs[0], xs[1], xs[2]}, al); break;
+      default: st().vec[r].emplace(xs.data(), xs.data() + xs.size(), al); break;
+      }
+      st().ref[r] = ref_t(xs.begin(), xs.end());
     }
     else if (k == "il" && t.size() == 4)
     {
@@ -400,7 +437,7 @@ std::string handle_inner(std::vector<std::string> const &t)
       }
       st().ref[r] = ref_t(xs.begin(), xs.end());
     }
-    else if (k == "move" && t.size() == 4)
+    else if (k == "move" && t.size() == 4 && !with_alloc)
     {
       if (!reg(t[3], NV, s2))
         return "bad-op";
@@ -412,7 +449,7 @@ std::string handle_inner(std::vector<std::string> const &t)
       st().ref[s2].clear();
       return fmt_ret(-1) + " " + show_vec(r) + " " + show_vec(s2) + " " + tail(std_cmp({r, s2}, {}, -1, -1));
     }
-    else if (k == "buf" && t.size() == 4)
+    else if (k == "buf" && t.size() == 4 && !with_alloc)
     {
       std::size_t b = 0;
       if (!reg(t[3], NB, b))
@@ -700,7 +737,13 @@ std::string handle_inner(std::vector<std::string> const &t)
     std::size_t const live_before = ledger().live.size();
     {
       using dyn_t = fcppt::container::dynamic_array<int, talloc<int>>;
-      dyn_t arr{n};
+      // odd sizes through the overload that takes the allocator
+      std::optional<dyn_t> holder;
+      if (n % 2 == 1)
+        holder.emplace(n, talloc<int>{});
+      else
+        holder.emplace(n);
+      dyn_t &arr = *holder;
       dyn_t const &carr = arr;
       for (std::size_t i = 0; i < xs.size(); ++i)
         arr.data()[i] = xs[i];
@@ -746,11 +789,14 @@ std::string handle_inner(std::vector<std::string> const &t)
       return xs.size();
     };
   };
-  if (op == "bctor" && t.size() == 3)
+  if ((op == "bctor" || op == "bactor") && t.size() == 3)
   {
     std::size_t const n = static_cast<std::size_t>(vh::to_ull(t[2]));
     st().buf[b].reset();
-    st().buf[b].emplace(n);
+    if (op == "bactor")
+      st().buf[b].emplace(n, talloc<int>{});
+    else
+      st().buf[b].emplace(n);
     st().brd[b].clear();
     st().bws[b] = n;
   }
